@@ -154,7 +154,10 @@ def expand(segs, env, loop=None, depth=0):
             n, a = s[1], s[2]
             if a in env["filters"]:
                 if n in ctx and WORD.match(a):
-                    kind, r = env["fres"].get((a, n), ("r", "KeyError"))
+                    if (a, n) not in env["fres"]:
+                        # a history without its fenv line (shrinking can drop it): the reference cannot judge
+                        raise OutOfGrammar("filter result not recorded")
+                    kind, r = env["fres"][(a, n)]
                     if kind == "r":
                         raise RefRaise(r)
                     out.append(r)
@@ -695,7 +698,21 @@ class C12(Prop):
                 ops.append(("ctx", {"b": "B"} if v is None else {V: v, "b": "B"}))
                 ops += [("render", 0, shape), ("translate", 0, "top"), ("render", 1, shape), ("translate", 1, "top")]
             nameprobes.append(self.hcase({}, ops, "variable named like a parameter / attribute / keyword / dunder"))
+        # tag-spelling probes: every regex of the implementation is exact about where whitespace may stand and what a
+        # name is; templates that are ALMOST tags must stay text (correspondence; the reference makes no claim)
+        spell = []
+        almost = ["{{#ifa}}T{{/if}}", "{{# if a}}T{{/if}}", "{{#if a }}T{{/if}}", "{{ #if a}}T{{/if}}", "{{#if  a}}T{{/if}}",
+                  "{{#if\ta}}T{{/if}}", "{{#if a}}T{{/if }}", "{{#if a}}T{{ /if}}", "{{#if a}}T{{#else }}E{{/if}}",
+                  "{{#if a}}T{{# else}}E{{/if}}", "{{#IF a}}T{{/IF}}", "{{#eachxs}}i{{/each}}", "{{#each xs }}i{{/each}}",
+                  "{{#each  xs}}i{{/each}}", "{{#each xs}}i{{/each }}", "{{#each xs}}{{ item}}{{item }}{{Item}}{{/each}}",
+                  "{{> t0}}", "{{>t0 }}", "{{ >t0}}", "{{>t0}}}", "{{? a}}", "{{?a }}", "{{ ?a}}", "{{ a}}", "{{a }}",
+                  "{{a |upper}}", "{{a| upper}}", "{{a|upper }}", "{{a|}}", "{{a||b}}", "{{a|b}c}}", "{ {a}}", "{{a} }",
+                  "{{{a}}}", "{{a-b}}", "{{a.b}}", "{{#if a-b}}T{{/if}}", "{{>t-0}}", "{{.}}", "{{ . }}"]
+        for tmpl in almost:
+            spell.append(self.case([("t0", "<{{b}}>")], {"a": "A", "b": "B", "xs": ["i", "j"], "upper": "U"},
+                                   [("render", tmpl, False), ("render", "x" + tmpl + "{{a}}", True)], "almost a tag"))
         return [{"name": "every single construct x binding state x strictness", "cases": cases},
+                {"name": "tag-spelling probes (whitespace and name boundaries of every tag)", "cases": spell},
                 {"name": "name probes (variables named like parameters of the entry points, attributes, keywords, dunders)",
                  "cases": nameprobes},
                 {"name": "pass-order probes", "cases": probes},
